@@ -105,6 +105,45 @@ class Source:
                 s += 1
         return Region(self, s, e)
 
+    def top_stmt(self, fn_region, text):
+        """Region of the top-level statement of the function body that contains `text` (unique inside fn_region).
+        A statement ends at a `;` at nesting depth 0 of the body, or at a `}` that closes a depth-0 block and is not
+        followed by `else`, `.`, `?`, `;`, `,` or `)` (i.e. a block statement such as `if .. { }` / `for .. { }`)."""
+        pos = self._unique(text, fn_region.start, fn_region.end)
+        body = self.fn_body(fn_region)
+        t, i, depth, start = self.text, body.start, 0, body.start
+        while i < body.end:
+            c = t[i]
+            if t.startswith("//", i):
+                i = t.find("\n", i)
+                continue
+            if c == '"':
+                i += 1
+                while i < body.end and t[i] != '"':
+                    i += 2 if t[i] == "\\" else 1
+            elif c in "([{":
+                depth += 1
+            elif c in ")]}":
+                depth -= 1
+                if c == "}" and depth == 0:
+                    m = re.match(r"\s*(else\b|\.|\?|;|,|\))", t[i + 1:body.end])
+                    if not m:
+                        if start <= pos <= i:
+                            break
+                        start = i + 1
+            elif c == ";" and depth == 0:
+                if start <= pos <= i:
+                    break
+                start = i + 1
+            i += 1
+        s, e = start, min(i + 1, body.end)
+        while t[s] in " \t\n":
+            s += 1
+        ls = t.rfind("\n", 0, s) + 1
+        if not t[ls:s].strip():
+            s = ls
+        return Region(self, s, e)
+
     def block_of(self, fn_region, head):
         """Region of the `{ .. }` block that follows the text `head` (unique inside fn_region), e.g. `for f in files `."""
         a = self._unique(head, fn_region.start, fn_region.end) + len(head)
@@ -283,11 +322,12 @@ class Piece:
     """Extracted region + mechanical transforms + spec insertions."""
 
     def __init__(self, region, drop_comments=True, drop_attrs=(), drop_tokens=(), rewrite_asserts=False, keep_attrs=False,
-                 renames=(), drop_blocks=(), error_blocks=()):
+                 renames=(), drop_blocks=(), error_blocks=(), drop_calls=()):
         self.region = region
         self.transforms = []
         self.params = dict(drop_comments=drop_comments, drop_attrs=tuple(drop_attrs), drop_tokens=tuple(drop_tokens),
-                           rewrite_asserts=rewrite_asserts, renames=tuple(renames), drop_blocks=tuple(drop_blocks), error_blocks=tuple(error_blocks))
+                           rewrite_asserts=rewrite_asserts, renames=tuple(renames), drop_blocks=tuple(drop_blocks), error_blocks=tuple(error_blocks),
+                           drop_calls=tuple(drop_calls))
         self.base = self._transform(region.text)
         self.inserts = []  # (offset in base, text, label)
 
@@ -321,6 +361,32 @@ class Piece:
                 e += 1
             t = t[:ls] + t[e:]
             self.transforms.append("block dropped (logging only): %r { .. }" % head)
+        for head in p["drop_calls"]:
+            # every statement `HEAD ... );` (a call whose result is not used, e.g. `log.warn(format!(..));`): logging only
+            n = 0
+            while True:
+                m = re.search(r"^[ \t]*" + re.escape(head), t, flags=re.M)
+                if not m:
+                    break
+                o = t.index("(", m.start() + len(m.group(0)) - 1)
+                depth, j = 0, o
+                while j < len(t):
+                    if t[j] == "(":
+                        depth += 1
+                    elif t[j] == ")":
+                        depth -= 1
+                        if depth == 0:
+                            break
+                    j += 1
+                if t[j + 1:j + 2] != ";":
+                    raise LostAnchor("call %r in %s is not a statement of its own: not dropped" % (head, self.region.src.rel))
+                e = j + 2
+                if t[e:e + 1] == "\n":
+                    e += 1
+                t = t[:m.start()] + t[e:]
+                n += 1
+            if n:
+                self.transforms.append("%d statement(s) `%s..);` dropped (logging only)" % (n, head))
         for head, replacement in p["error_blocks"]:
             # a block that only builds an error message and returns it: its body is replaced by a canonical error return,
             # after checking syntactically that its last statement is a `return` of `Err(..)` values only
